@@ -10,6 +10,7 @@ Require Import Zrs.lib.RsPrelude Zrs.model.BitIO Zrs.model.FseDec Zrs.model.HufD
 Require Import Zrs.proofs.C13_Huffman.
 Require Import Zrs.model.BitIO Zrs.model.BitStream Zrs.model.HufDec Zrs.proofs.C12_Stream Zrs.proofs.C13_Stream.
 Require Import Zrs.gen.Generated Zrs.model.Headers Zrs.model.BlockDec Zrs.model.LitEnc Zrs.proofs.C13_LitSection.
+Require Import Zrs.proofs.C13_Canonical Zrs.proofs.C13_CanonCode.
 Open Scope Z_scope.
 
 Theorem C13_shape_valid : forall n, 2 <= n <= 256 ->
@@ -70,6 +71,48 @@ Theorem C13_code_conditions_decidable : forall t mn code s,
   code_ok_b mn code s = true -> resolves_b t mn code s = true -> code_ok mn code s /\ resolves t mn code s.
 Proof. intros t mn code s H1 H2. pose proof (code_ok_b_sound mn code s H1) as H. split; [exact H|]. apply resolves_b_sound; assumption. Qed.
 
+(** *** the decoder's table is the decoding table of a complete prefix code -- for EVERY weight list it accepts
+
+    Each symbol with a non-zero weight owns one aligned block of 2^(max_bits - length) consecutive entries, all carrying
+    that symbol and that code length; blocks of different symbols are disjoint and together cover the table (blocks in
+    order of decreasing length, then increasing symbol: the canonical assignment of the format).  At most 255 explicit
+    weights, as the format allows (the symbol of an entry is a byte). *)
+Theorem C13_decoder_table_is_a_complete_prefix_code : forall ws dec M bits ranks idxs,
+  Forall (fun w => 0 <= w) ws -> (length ws <= 255)%nat ->
+  build_table_from_weights ws = ROk (dec, M, bits, ranks, idxs) ->
+  exists placed : list blk,
+    NoDup (map blk_sym placed) /\
+    (forall s base n, In (s, base, n) placed ->
+       (n < Z.to_nat M)%nat /\ 0 <= s < Z.of_nat (length bits) /\ 0 <= base /\ base + 2 ^ Z.of_nat n <= 2 ^ M /\ base mod 2 ^ Z.of_nat n = 0 /\
+       forall i, base <= i < base + 2 ^ Z.of_nat n -> nth_h dec i = {| h_sym := s; h_bits := M - Z.of_nat n |}) /\
+    (forall i, 0 <= i < 2 ^ M -> exists s base n, In (s, base, n) placed /\ base <= i < base + 2 ^ Z.of_nat n) /\
+    (forall j, (j < length bits)%nat -> 0 < nth j bits 0 -> exists base, In (Z.of_nat j, base, Z.to_nat (M - nth j bits 0)) placed).
+Proof. exact built_table_blocks. Qed.
+
+(** ... hence the code word read off the table for a symbol (first index, shortened to the code length) is well formed,
+    has the length the weights prescribe, and is resolved by exactly the indices that start with it: the side
+    conditions of the literals round trip, for every table and every symbol with a code *)
+Theorem C13_code_words_of_every_table_resolve : forall ws dec M bits ranks idxs t,
+  Forall (fun w => 0 <= w) ws -> (length ws <= 255)%nat ->
+  build_table_from_weights ws = ROk (dec, M, bits, ranks, idxs) -> ht_decode t = dec -> ht_max_bits t = M ->
+  (forall i, 0 <= i < 2 ^ M -> let s := h_sym (nth_h dec i) in
+     code_ok_b (Z.to_nat M) (code_of_dec t) s = true /\ resolves_b t (Z.to_nat M) (code_of_dec t) s = true) /\
+  (forall j, (j < length bits)%nat -> 0 < nth j bits 0 ->
+     code_ok_b (Z.to_nat M) (code_of_dec t) (Z.of_nat j) = true /\ resolves_b t (Z.to_nat M) (code_of_dec t) (Z.of_nat j) = true /\
+     snd (code_of_dec t (Z.of_nat j)) = Z.to_nat (nth j bits 0)).
+Proof. exact built_table_codes. Qed.
+
+(** non-vacuity: weights [2;1;1] (the implied fourth weight 3 completes the sum to 8): code lengths 2,3,3,1 and the
+    blocks of symbols 1, 2 (one entry each), 0 (two entries), 3 (four entries) *)
+Example C13_canonical_example :
+  match build_table_from_weights [2; 1; 1] with
+  | ROk (dec, M, bits, _, _) => M = 3 /\ bits = [2; 3; 3; 1] /\ map h_sym dec = [1; 2; 0; 0; 3; 3; 3; 3]
+  | _ => False
+  end.
+Proof. vm_compute. auto. Qed.
+
+Print Assumptions C13_decoder_table_is_a_complete_prefix_code.
+Print Assumptions C13_code_words_of_every_table_resolve.
 Print Assumptions C13_huffman_literals_section_decodes.
 Print Assumptions C13_huffman_literals_header_small.
 Print Assumptions C13_huffman_literals_header_large.
